@@ -845,6 +845,8 @@ impl<'a> Message<'a> {
                     bail!("cannot verify unknown hash");
                 };
 
+                Signature::check_signature_key_version_alignment(key, config)?;
+
                 // Check that the high 16 bits of the hash from the signature packet match with the hash we
                 // just calculated.
                 //
